@@ -30,7 +30,7 @@ def scenarios(rnd, tier):
             r = rnd.random()
             num = rnd.choice([0, 3, 5, 221])
             if r < 0.5:
-                ops.append("a:%d:%s" % (num, bytes(rnd.randrange(1, 256) for _ in range(rnd.choice([0, 1, 2, 8]))).hex() or "-"))
+                ops.append("a:%d:%s" % (num, frames.tag_body(rnd, rnd.choice([0, 1, 2, 8])).hex() or "-"))
             elif r < 0.7:
                 ops.append("r:%d" % num)
             elif r < 0.85:
@@ -62,19 +62,7 @@ def check(ctx):
     import diffrun
     rnd = random.Random(ctx.seed)
     base = scenarios(rnd, ctx.tier)
-    probe = ["alloc none 0 -1 " + l for l in base]
-    outs = []
-    for ch in diffrun.parallel_map(lambda c: diffrun.run_harness_all(exe, c), diffrun.chunked(probe, 16)):
-        outs += ch[0]
-    lines = []
-    total_points = 0
-    for l, o in zip(base, outs):
-        lg = c14.ledger_of(o)
-        N = lg[2] if lg else 0
-        total_points += N
-        for k in range(N):
-            lines.append("alloc %d 0 %d %s" % (k, rnd.choice([-1, 0xCD]), l))
-            lines.append("alloc %d 1 -1 %s" % (k, l))
+    lines, total_points = c14.fault_lines(exe, base, rnd)
     ctx.coverage["scenarios"] = len(base)
     ctx.coverage["fault_points"] = total_points
     ctx.coverage["exhaustive"] = True
